@@ -341,12 +341,19 @@ fn check_input(rep: &mut Report, inp: &Input, rng: &mut Rng, dontcare: bool) {
 }
 
 fn all_names(max_len: usize) -> Vec<String> {
+    let mut v = all_names_over(['a', 'b', ':'], max_len);
+    // the same with multi-byte letters (character positions and byte offsets differ)
+    v.extend(all_names_over(['é', '日', ':'], max_len.min(5)).into_iter().filter(|s| !s.is_empty() && s.chars().any(|c| c != ':')));
+    v
+}
+
+fn all_names_over(alphabet: [char; 3], max_len: usize) -> Vec<String> {
     let mut out = vec![String::new()];
     let mut frontier = vec![String::new()];
     for _ in 0..max_len {
         let mut next = vec![];
         for s in &frontier {
-            for c in ['a', 'b', ':'] {
+            for c in alphabet {
                 let mut t = s.clone();
                 t.push(c);
                 next.push(t);
@@ -399,7 +406,7 @@ fn gen_input(rng: &mut Rng, names: &[String]) -> Input {
 }
 
 pub fn run(rep: &mut Report) {
-    rep.rule = "logger names exhaustively over {a,b,:} up to length 6 (1093 names) built singly (strict + lossy), names with colon runs of 3..65538 (around 16, 128, 256, 512, 1024, 65536) in the middle, at the end and at the start, plus random \
+    rep.rule = "logger names exhaustively over {a,b,:} up to length 6 (1093 names) and over {é,日,:} up to length 5 built singly (strict + lossy), names with colon runs of 3..65538 (around 16, 128, 256, 512, 1024, 65536) in the middle, at the end and at the start, plus random \
         builder inputs (0-5 appenders with duplicates, 0-5 loggers with duplicate / ill-formed names, dangling references in \
         root, kept and rejected loggers); every returned Config is installed and probed against the routing model; \
         non-trivial = input has at least one defect or at least one logger; distinct = distinct builder input".to_owned();
